@@ -42,10 +42,17 @@ func goEnv() []string {
 	return env
 }
 
+var cleanup []func()
+
 func die(code int, format string, a ...any) {
+	for _, f := range cleanup {
+		f()
+	}
 	fmt.Fprintf(os.Stderr, "verif: "+format+"\n", a...)
 	os.Exit(code)
 }
+
+var goExe = filepath.Join(goBin, "go")
 
 func main() {
 	if len(os.Args) < 2 {
@@ -115,7 +122,7 @@ func ensureTools() string {
 	}
 	os.MkdirAll(filepath.Join(verifDir, "bin"), 0o755)
 	tmp := bin + fmt.Sprintf(".tmp%d", os.Getpid())
-	out, err := run(filepath.Join(verifDir, "sim"), goEnv(), "go", "build", "-o", tmp, "./instr")
+	out, err := run(filepath.Join(verifDir, "sim"), goEnv(), goExe, "build", "-o", tmp, "./instr")
 	if err != nil {
 		die(2, "building verif-instr failed:\n%s", out)
 	}
@@ -160,6 +167,7 @@ func ensureBinary(mode string) *buildInfo {
 		}
 	}
 	defer os.Remove(lock)
+	cleanup = append(cleanup, func() { os.Remove(lock) })
 	if _, err := os.Stat(bin); err == nil {
 		return bi
 	}
@@ -169,6 +177,7 @@ func ensureBinary(mode string) *buildInfo {
 		die(2, "mktemp: %v", err)
 	}
 	defer os.RemoveAll(tmp)
+	cleanup = append(cleanup, func() { os.RemoveAll(tmp) })
 	env := goEnv()
 	out, err := run(filepath.Join(verifDir, "sim"), env, instr, "-src", filepath.Join(repoDir, "service"), "-dst", filepath.Join(tmp, "service"), "-meta", filepath.Join(tmp, "service.json"))
 	if err != nil {
@@ -193,7 +202,7 @@ func ensureBinary(mode string) *buildInfo {
 		args = append(args, "-race")
 	}
 	args = append(args, "./harness")
-	out, err = run(filepath.Join(verifDir, "sim"), env, "go", args...)
+	out, err = run(filepath.Join(verifDir, "sim"), env, goExe, args...)
 	if err != nil {
 		die(2, "simulator build failed (mode %s):\n%s", mode, out)
 	}
@@ -424,6 +433,7 @@ func cmdCheck(args []string) {
 		die(2, "mktemp: %v", err)
 	}
 	defer os.RemoveAll(tmp)
+	cleanup = append(cleanup, func() { os.RemoveAll(tmp) })
 
 	var (
 		mu       sync.Mutex
